@@ -32,7 +32,7 @@ CHECKS["C05"] = (
 )
 
 CHECKS["C28"] = (
-    "exhaustive",
+    "model_checking",
     "TLA+ Status spec (PS3.7 Annex C category ranges, table agreement, finality rule) evaluated by TLC over all 65536 codes on values dumped from the implementation (C2S); finality observed by driving the real SCU iterators and the real C-FIND SCP per code",
     "All 65536 status codes and every row of every service status table are checked by TLC against the category function observed from the code and the PS3.7 range rules; SCU/SCP finality decisions are observed on the real send_c_find/get/move iterators and the real C-FIND SCP for boundary codes (quick) or all codes (thorough).",
     "Trusted: transcription of PS3.7 Annex C ranges; transport cut at the DIMSE boundary for the finality probes.",
